@@ -12,7 +12,8 @@
 (***************************************************************************)
 EXTENDS Integers, Sequences, FiniteSets, TLC, Json, IOUtils
 
-CONSTANTS MaxIdx,     \* at most this many element / attribute positions per part (spread over the part)
+CONSTANTS MaxBump,    \* index-like attributes are moved up by 1..MaxBump
+          MaxIdx,     \* at most this many element / attribute positions per part (spread over the part)
           Pairs       \* TRUE: also pairs of faults (part-level x part-level and one structural fault per part pair)
 
 Vocab == ndJsonDeserialize(IOEnv.VOCAB)
@@ -20,15 +21,18 @@ Parts == 1..Len(Vocab)
 Pkgs == {Vocab[p].pkg : p \in Parts}
 
 Spread(n) == IF n <= MaxIdx THEN 1..n ELSE {1 + ((i - 1) * n) \div MaxIdx : i \in 1..MaxIdx}
-GarbleClasses == 0..5
+GarbleClasses == 0..7
 
 F(k, p, i, x) == [k |-> k, part |-> Vocab[p].part, i |-> i, x |-> x]
 ElemFaults(p) == {F(k, p, i, 0) : k \in {"DropElem", "DupElem", "EmptyElem"}, i \in Spread(Vocab[p].elems)}
 AttrFaults(p) == {F("DropAttr", p, j, 0) : j \in Spread(Vocab[p].attrs)} \cup {F("GarbleAttr", p, j, g) : j \in Spread(Vocab[p].attrs), g \in GarbleClasses}
+(* an index-like attribute (small integer: sheet id, style index, count ...) moved up by 1..MaxBump: somewhere *)
+(* in that range it sits exactly one past the end of whatever it indexes                                     *)
+BumpFaults(p) == {F("BumpAttr", p, Vocab[p].ints[j], d) : j \in 1..Len(Vocab[p].ints), d \in 1..MaxBump}
 PartFaults(p) == {F("DropPart", p, 0, 0)} \cup {F("TruncatePart", p, 0, k) : k \in {1, 8, 15}}
 PkgFaults == {[k |-> "TruncateZip", part |-> "", i |-> 0, x |-> k] : k \in 1..15} \cup {[k |-> "FlipByte", part |-> "", i |-> 0, x |-> k] : k \in 1..16}
 
-Singles(pkg) == UNION {ElemFaults(p) \cup AttrFaults(p) \cup PartFaults(p) : p \in {q \in Parts : Vocab[q].pkg = pkg}} \cup PkgFaults
+Singles(pkg) == UNION {ElemFaults(p) \cup AttrFaults(p) \cup BumpFaults(p) \cup PartFaults(p) : p \in {q \in Parts : Vocab[q].pkg = pkg}} \cup PkgFaults
 (* pairs: two part-level faults on different parts, and the first structural fault of two different parts *)
 FirstOf(p) == IF Vocab[p].elems > 1 THEN {F("DropElem", p, 2, 0), F("EmptyElem", p, 1, 0)} ELSE {}
 PairSets(pkg) ==
